@@ -719,6 +719,16 @@ def run_text(chk: Check, prog: Program) -> None:
              ("gen_commute_haystack", {"min_terms": 3, "max_terms": 3}),
              ("gen_move_around_blockers_one", {"number_blockers": 1}), ("gen_move_around_blockers_two", {"number_blockers": 1})]
     cases = [c for c in cases if c]
+    # every boolean option of a generator, flipped one at a time (read off the signature)
+    for name, kw in list(cases):
+        fdef = mod.functions[name].node if name in mod.functions else None
+        if fdef is None or (name == "gen_simplify_multiple_terms" and kw.get("num_terms") != 2):
+            continue
+        params = list(fdef.args.args) + list(fdef.args.kwonlyargs)
+        defaults = [None] * (len(fdef.args.args) - len(fdef.args.defaults)) + list(fdef.args.defaults) + list(fdef.args.kw_defaults)
+        for a_, d_ in zip(params, defaults):
+            if isinstance(d_, ast.Constant) and isinstance(d_.value, bool) and a_.arg not in kw:
+                cases.append((name, dict(kw, **{a_.arg: not d_.value})))
     OPMAP = {"+": "Plus", "-": "Minus", "*": "Multiply", "/": "Divide", "^": "Exponent", "(": "OpenParen", ")": "CloseParen",
              "=": "Equal", "!": "Factorial"}
     for name, kw in cases:
